@@ -277,7 +277,9 @@ theorem rt_reset (F : NumFmt) (d : Nat) (a : Reset) (h : parsedInstr (.reset a) 
       simp only [parsedInstr] at h
       simp [parseCommand, parseReset, Parser.bind, Parser.pure, opt, parseQubit_toks q h]
 
-theorem nameTok_ne_bang (s : String) : nameTok s ≠ .bang := by
+/-- a re-classified name is a word token, never punctuation -/
+theorem nameTok_not_punct (s : String) :
+    nameTok s ≠ .bang ∧ nameTok s ≠ .lParenthesis ∧ nameTok s ≠ .newLine := by
   simp only [nameTok, keywordOrIdentifier]
   split
   · rename_i k _; cases k <;> simp [KeywordToken.toToken]
@@ -286,6 +288,8 @@ theorem nameTok_ne_bang (s : String) : nameTok s ≠ .bang := by
     · split
       · simp
       · split <;> simp
+
+theorem nameTok_ne_bang (s : String) : nameTok s ≠ .bang := (nameTok_not_punct s).1
 
 theorem parseMeasureName_toks (n : Option String) (q : Qubit) (r : List Token) :
     parseMeasureName (measureNameToks n ++ qubitToks q ++ r) = .ok n (qubitToks q ++ r) := by
